@@ -33,12 +33,19 @@ pub static mut VH_NEV: usize = 0;
 /// environment callback and its re-entrancy latch
 pub static mut VH_ENV: Option<fn()> = None;
 pub static mut VH_IN_ENV: bool = false;
+/// spin detection for single-threaded histories (C09): number of consecutive loads without any write; if
+/// `VH_SPIN_LIMIT > 0` and it is exceeded the running operation re-reads a memory nobody else can change
+pub static mut VH_SPIN_LOADS: usize = 0;
+pub static mut VH_SPIN_LIMIT: usize = 0;
+/// event logging off (long histories would overflow the log)
+pub static mut VH_LOG_OFF: bool = false;
 /// set by tbmc.rs: accesses are answered from the guessed trace
 pub static mut VH_TRACE_MODE: bool = false;
 
 pub fn reset() {
     unsafe {
         VH_NEV = 0;
+        VH_SPIN_LOADS = 0;
     }
 }
 pub fn count() -> usize {
@@ -61,6 +68,18 @@ pub fn orx_verif_atomic(cell: *mut usize, kind: u32, ord: u32, operand: usize) -
                 VH_IN_ENV = false;
             }
         }
+        if kind == K_LOAD {
+            VH_SPIN_LOADS += 1;
+            if VH_SPIN_LIMIT > 0 && VH_SPIN_LOADS > VH_SPIN_LIMIT {
+                assert!(
+                    false,
+                    "C09: a call keeps re-reading shared state that no other thread can change any more: it waits forever"
+                );
+                kani::assume(false);
+            }
+        } else {
+            VH_SPIN_LOADS = 0;
+        }
         let old = *cell;
         let new = if kind == K_LOAD {
             old
@@ -70,7 +89,7 @@ pub fn orx_verif_atomic(cell: *mut usize, kind: u32, ord: u32, operand: usize) -
             old.wrapping_add(operand)
         };
         *cell = new;
-        if !VH_IN_ENV {
+        if !VH_IN_ENV && !VH_LOG_OFF {
             assert!(VH_NEV < NLOG, "harness: atomic access log overflow");
             VH_LOG[VH_NEV] = Ev { cell, kind, ord, operand, old, new };
             VH_NEV += 1;
